@@ -1,17 +1,210 @@
 import BU.Gen.Codec
 import BU.Model.Ripemd
-/-! helper lemmas and proofs for `BU/Properties/C20_Gen.lean` (generated ripemd160 rol / fi = hand model mod 2^32) -/
+import BU.Proofs.IntBits
+import BU.Proofs.PyLemmas
+/-! Proofs for `BU/Properties/C20_Gen.lean`: the *generated* `rol` and `fi` of `ripemd160.py` (Python's unbounded ints,
+negative values from `~`, masking only in `rol`) agree with the word-level hand model modulo 2^32, on every int.  Bit-level
+reasoning through `BU/Proofs/IntBits.lean`.  Mathlib-free. -/
 namespace GenRmd
-open Model
+open Model Py IntBits
 
 def w32 (x : Int) : UInt32 := UInt32.ofNat (x % 4294967296).toNat
 
-theorem gen_rol (x : Int) (i : Nat) (hi : i ≤ 32) :
-    Gen.rmd_rol x (i : Int) = .ok (((Rmd.rol (w32 x) i).toNat : Nat) : Int) := by sorry
+/-- the low 32 bits of a Python int, as a natural number -/
+def m32 (x : Int) : Nat := (x % 4294967296).toNat
+
+theorem m32_spec (x : Int) :
+    x % 4294967296 = (m32 x : Int) ∧ m32 x < 2 ^ 32 ∧ ∀ j, (m32 x).testBit j = (decide (j < 32) && tb x j) := by
+  obtain ⟨m, h1, h2, h3⟩ := emod_two_pow x 32
+  have e : (2 : Int) ^ 32 = 4294967296 := by decide
+  rw [e] at h1
+  have hm : m32 x = m := by unfold m32; rw [h1]; rfl
+  rw [hm]
+  exact ⟨h1, h2, h3⟩
+
+theorem w32_toNat (x : Int) : (w32 x).toNat = m32 x := by
+  have := (m32_spec x).2.1
+  show (UInt32.ofNat (m32 x)).toNat = m32 x
+  simp [UInt32.toNat_ofNat']
+  omega
+
+theorem not_bit (a : Nat) (h : a < 2 ^ 32) (j : Nat) :
+    (UInt32.size - 1 - a).testBit j = (decide (j < 32) && !a.testBit j) := by
+  have : UInt32.size - 1 - a = 2 ^ 32 - (a + 1) := by
+    have : UInt32.size = 2 ^ 32 := by decide
+    omega
+  rw [this, Nat.testBit_two_pow_sub_succ h]
+
+/-- a value is determined modulo 2^32 by its low bits -/
+theorem mod_eq_of_bits (v : Int) (n : Nat) (hn : n < 2 ^ 32)
+    (h : ∀ j, j < 32 → tb v j = n.testBit j) : v % 4294967296 = (n : Int) := by
+  obtain ⟨h1, h2, h3⟩ := m32_spec v
+  rw [h1]
+  congr 1
+  apply Nat.eq_of_testBit_eq
+  intro j
+  rw [h3]
+  by_cases hj : j < 32
+  · simp [hj, h j hj]
+  · have : n.testBit j = false := Nat.testBit_lt_two_pow (Nat.lt_of_lt_of_le hn (Nat.pow_le_pow_right (by omega) (by omega)))
+    simp [hj, this]
+
+theorem fi0 (x y z : Int) : Gen.rmd_fi x y z 0 = .ok (lxor (lxor x y) z) := rfl
+theorem fi1 (x y z : Int) : Gen.rmd_fi x y z 1 = .ok (lor (land x y) (land (lnot x) z)) := rfl
+theorem fi2 (x y z : Int) : Gen.rmd_fi x y z 2 = .ok (lxor (lor x (lnot y)) z) := rfl
+theorem fi3 (x y z : Int) : Gen.rmd_fi x y z 3 = .ok (lor (land x z) (land y (lnot z))) := rfl
+theorem fi4 (x y z : Int) : Gen.rmd_fi x y z 4 = .ok (lxor x (lor y (lnot z))) := rfl
 
 theorem gen_fi (x y z : Int) (i : Nat) (hi : i ≤ 4) :
-    (Gen.rmd_fi x y z (i : Int)).map (fun v => v % 4294967296) = .ok (((Rmd.fi (w32 x) (w32 y) (w32 z) i).toNat : Nat) : Int) := by sorry
+    (Gen.rmd_fi x y z (i : Int)).map (fun v => v % 4294967296) = .ok (((Rmd.fi (w32 x) (w32 y) (w32 z) i).toNat : Nat) : Int) := by
+  have hx := (m32_spec x).2; have hy := (m32_spec y).2; have hz := (m32_spec z).2
+  have cases5 : i = 0 ∨ i = 1 ∨ i = 2 ∨ i = 3 ∨ i = 4 := by omega
+  rcases cases5 with rfl | rfl | rfl | rfl | rfl
+  · rw [show ((0 : Nat) : Int) = 0 from rfl, fi0]
+    show Except.ok (_ % 4294967296) = _
+    congr 1
+    apply mod_eq_of_bits _ _ (UInt32.toNat_lt _)
+    intro j hj
+    rw [show Rmd.fi (w32 x) (w32 y) (w32 z) 0 = w32 x ^^^ w32 y ^^^ w32 z from rfl]
+    simp only [UInt32.toNat_xor, w32_toNat, Nat.testBit_xor, hx.2, hy.2, hz.2, tb_lxor, hj, decide_true, Bool.true_and]
+  · rw [show ((1 : Nat) : Int) = 1 from rfl, fi1]
+    show Except.ok (_ % 4294967296) = _
+    congr 1
+    apply mod_eq_of_bits _ _ (UInt32.toNat_lt _)
+    intro j hj
+    rw [show Rmd.fi (w32 x) (w32 y) (w32 z) 1 = (w32 x &&& w32 y) ||| (~~~ w32 x &&& w32 z) from rfl]
+    simp only [UInt32.toNat_or, UInt32.toNat_and, UInt32.toNat_not, w32_toNat, Nat.testBit_or, Nat.testBit_and,
+      not_bit _ hx.1, hx.2, hy.2, hz.2, tb_lor, tb_land, tb_lnot, hj, decide_true, Bool.true_and]
+  · rw [show ((2 : Nat) : Int) = 2 from rfl, fi2]
+    show Except.ok (_ % 4294967296) = _
+    congr 1
+    apply mod_eq_of_bits _ _ (UInt32.toNat_lt _)
+    intro j hj
+    rw [show Rmd.fi (w32 x) (w32 y) (w32 z) 2 = (w32 x ||| ~~~ w32 y) ^^^ w32 z from rfl]
+    simp only [UInt32.toNat_or, UInt32.toNat_xor, UInt32.toNat_not, w32_toNat, Nat.testBit_or, Nat.testBit_xor,
+      not_bit _ hy.1, hx.2, hy.2, hz.2, tb_lor, tb_lxor, tb_lnot, hj, decide_true, Bool.true_and]
+  · rw [show ((3 : Nat) : Int) = 3 from rfl, fi3]
+    show Except.ok (_ % 4294967296) = _
+    congr 1
+    apply mod_eq_of_bits _ _ (UInt32.toNat_lt _)
+    intro j hj
+    rw [show Rmd.fi (w32 x) (w32 y) (w32 z) 3 = (w32 x &&& w32 z) ||| (w32 y &&& ~~~ w32 z) from rfl]
+    simp only [UInt32.toNat_or, UInt32.toNat_and, UInt32.toNat_not, w32_toNat, Nat.testBit_or, Nat.testBit_and,
+      not_bit _ hz.1, hx.2, hy.2, hz.2, tb_lor, tb_land, tb_lnot, hj, decide_true, Bool.true_and]
+  · rw [show ((4 : Nat) : Int) = 4 from rfl, fi4]
+    show Except.ok (_ % 4294967296) = _
+    congr 1
+    apply mod_eq_of_bits _ _ (UInt32.toNat_lt _)
+    intro j hj
+    rw [show Rmd.fi (w32 x) (w32 y) (w32 z) 4 = w32 x ^^^ (w32 y ||| ~~~ w32 z) from rfl]
+    simp only [UInt32.toNat_or, UInt32.toNat_xor, UInt32.toNat_not, w32_toNat, Nat.testBit_or, Nat.testBit_xor,
+      not_bit _ hz.1, hx.2, hy.2, hz.2, tb_lor, tb_lxor, tb_lnot, hj, decide_true, Bool.true_and]
 
-theorem gen_fi_rejects (x y z : Int) (i : Int) (hi : i < 0 ∨ 4 < i) : Gen.rmd_fi x y z i = .error .assertion := by sorry
+theorem gen_fi_rejects (x y z : Int) (i : Int) (hi : i < 0 ∨ 4 < i) : Gen.rmd_fi x y z i = .error .assertion := by
+  unfold Gen.rmd_fi
+  have h0 : (i == 0) = false := by simp only [beq_eq_false_iff_ne]; omega
+  have h1 : (i == 1) = false := by simp only [beq_eq_false_iff_ne]; omega
+  have h2 : (i == 2) = false := by simp only [beq_eq_false_iff_ne]; omega
+  have h3 : (i == 3) = false := by simp only [beq_eq_false_iff_ne]; omega
+  have h4 : (i == 4) = false := by simp only [beq_eq_false_iff_ne]; omega
+  simp only [h0, h1, h2, h3, h4]
+  rfl
+
+/-! ### rol -/
+
+theorem land_nonneg_right (x : Int) (b : Nat) : 0 ≤ land x (b : Int) := by
+  cases x <;> simp [land] <;> omega
+
+/-- `x & 0xffffffff` is the low 32 bits -/
+theorem land_mask (x : Int) : land x 4294967295 = (m32 x : Int) := by
+  apply natCast_eq_of_tb (land_nonneg_right x 4294967295)
+  intro j
+  rw [tb_land, (m32_spec x).2.2 j]
+  show (tb x j && tb (((2 ^ 32 - 1 : Nat)) : Int) j) = _
+  rw [tb_ofNat, Nat.testBit_two_pow_sub_one, Bool.and_comm]
+
+/-- bits of `x << i` -/
+theorem tb_mul_two_pow (x : Int) (i j : Nat) : tb (x * 2 ^ i) j = (decide (i ≤ j) && tb x (j - i)) := by
+  cases x with
+  | ofNat a =>
+    have : (Int.ofNat a) * 2 ^ i = ((a * 2 ^ i : Nat) : Int) := by
+      show (a : Int) * 2 ^ i = _
+      rw [Int.natCast_mul, Int.natCast_pow]; rfl
+    rw [this, tb_ofNat, Nat.testBit_mul_two_pow]
+    rfl
+  | negSucc a =>
+    have hpos : 0 < 2 ^ i := Nat.two_pow_pos i
+    have : (Int.negSucc a) * 2 ^ i = Int.negSucc (2 ^ i * a + (2 ^ i - 1)) := by
+      have e : ((2 : Int) ^ i) = ((2 ^ i : Nat) : Int) := by rw [Int.natCast_pow]; rfl
+      rw [e, Int.negSucc_eq, Int.negSucc_eq]
+      have : ((2 ^ i * a + (2 ^ i - 1) : Nat) : Int) = (2 ^ i : Nat) * (a : Int) + ((2 ^ i : Nat) - 1) := by
+        rw [Int.natCast_add, Int.natCast_mul, Int.natCast_sub (by omega)]; rfl
+      rw [this]
+      generalize ((2 ^ i : Nat) : Int) = P
+      rw [Int.neg_mul, Int.add_mul, Int.one_mul, Int.mul_comm (a : Int) P]
+      omega
+    rw [this, tb_negSucc, Nat.testBit_two_pow_mul_add a (by omega : 2 ^ i - 1 < 2 ^ i), Nat.testBit_two_pow_sub_one, tb_negSucc]
+    by_cases h : j < i
+    · have : ¬ i ≤ j := by omega
+      simp [h, this]
+    · have : i ≤ j := by omega
+      simp [h, this]
+
+theorem rol_toNat (w : UInt32) (i : Nat) (hi : i ≤ 32) :
+    (Rmd.rol w i).toNat = (w.toNat <<< (i % 32)) % 2 ^ 32 ||| w.toNat >>> ((32 - i) % 32) := by
+  unfold Rmd.rol
+  rw [UInt32.toNat_or, UInt32.toNat_shiftLeft, UInt32.toNat_shiftRight]
+  have e1 : (UInt32.ofNat i).toNat = i := by
+    simp [UInt32.toNat_ofNat']; omega
+  have e2 : (UInt32.ofNat (32 - i)).toNat = 32 - i := by
+    simp [UInt32.toNat_ofNat']; omega
+  rw [e1, e2]
+
+theorem gen_rol (x : Int) (i : Nat) (hi : i ≤ 32) :
+    Gen.rmd_rol x (i : Int) = .ok (((Rmd.rol (w32 x) i).toNat : Nat) : Int) := by
+  obtain ⟨_, hm, hbits⟩ := m32_spec x
+  unfold Gen.rmd_rol
+  have hshl : Py.shl x (i : Int) = .ok (x * 2 ^ i) := by
+    unfold Py.shl; rw [if_neg (by omega), Int.toNat_natCast]
+  have hsub : ((32 : Int) - (i : Int)) = ((32 - i : Nat) : Int) := by omega
+  have hshr : Py.shr ((m32 x : Nat) : Int) ((32 - i : Nat) : Int) = .ok (((m32 x >>> (32 - i) : Nat)) : Int) := by
+    unfold Py.shr
+    rw [if_neg (by omega), Int.toNat_natCast]
+    congr 1
+    rw [Nat.shiftRight_eq_div_pow]
+    norm_cast
+  rw [hshl, ok_bind, land_mask, hsub, hshr, ok_bind]
+  show Except.ok (land _ 4294967295) = _
+  rw [land_mask]
+  congr 2
+  -- both sides are below 2^32: compare bit by bit
+  apply Nat.eq_of_testBit_eq
+  intro j
+  rw [(m32_spec _).2.2 j, tb_lor, tb_mul_two_pow, tb_ofNat, Nat.testBit_shiftRight, hbits, rol_toNat _ i hi, w32_toNat,
+    Nat.testBit_or, Nat.testBit_mod_two_pow, Nat.testBit_shiftLeft, Nat.testBit_shiftRight, hbits, hbits]
+  by_cases h32 : i = 32
+  · subst h32
+    by_cases hj : j < 32
+    · have : ¬ 32 ≤ j := by omega
+      simp [hj, this]
+    · simp [hj]
+  · by_cases h0 : i = 0
+    · subst h0
+      by_cases hj : j < 32
+      · have : ¬ (32 + j < 32) := by omega
+        simp [hj, this]
+      · simp [hj]
+    · have e1 : i % 32 = i := Nat.mod_eq_of_lt (by omega)
+      have e2 : (32 - i) % 32 = 32 - i := Nat.mod_eq_of_lt (by omega)
+      rw [e1, e2]
+      by_cases hj : j < 32
+      · by_cases hij : i ≤ j
+        · have a1 : j - i < 32 := by omega
+          have a2 : ¬ (32 - i + j < 32) := by omega
+          simp [hj, hij, a1, a2]
+        · have a2 : 32 - i + j < 32 := by omega
+          simp [hj, hij, a2]
+      · have a2 : ¬ (32 - i + j < 32) := by omega
+        simp [hj, a2]
 
 end GenRmd
